@@ -18,6 +18,7 @@ import ClipperVerif.Driver.C19
 import ClipperVerif.Driver.C16
 import ClipperVerif.Driver.C03
 import ClipperVerif.Driver.C04
+import ClipperVerif.Driver.C12
 namespace Clipper.Driver
 open Clipper.Proto
 
@@ -41,7 +42,8 @@ def handlers : List (String → Option (P String)) := [
   C19.handle,
   C16.handle,
   C03.handle,
-  C04.handle
+  C04.handle,
+  C12.handle
 ]
 
 def dispatch1 (cmd : String) : Option (P String) :=
